@@ -6,9 +6,9 @@ from translate import usercls_tr
 from props import usercls_common as uc
 
 
-def corpus_cases():
+def corpus_cases(pid):
     import os
-    d = os.path.join(core.VERIF, "corpus", "C14")
+    d = os.path.join(core.VERIF, "corpus", pid)
     out = []
     if os.path.isdir(d):
         for f in sorted(os.listdir(d)):
@@ -18,13 +18,17 @@ def corpus_cases():
 
 
 def run(chk, pid="C14"):
+    import time
+    t0 = time.time()
     chk.prove([usercls_tr.translate])
-    n = 420 if chk.thorough else 90
-    cases = corpus_cases()
+    t1 = time.time()
+    n = 400 if chk.thorough else 70
+    cases = corpus_cases(pid)
     ncorpus = len(cases)
     for i in range(n):
         cases.append(uc.gen_scenario(chk.rng.split(i), i))
     results, errs = uc.run_cases(chk, cases, pid)
+    chk.cov["stage_seconds"] = {"prove": round(t1 - t0, 1), "implementation+model": round(time.time() - t1, 1)}
     failures, disagreements = [], []
     if errs:
         disagreements.append({"case": "coq evaluation", "model": errs[:2]})
